@@ -240,11 +240,17 @@ class PyCompileProxy(object):
 _lock = threading.Lock()
 
 
+_RUNS = 0
+
+
 def run(scratch, kind, writers, faults, order, dest0, dir0, dry, texts, persistent=False):
     """Execute putData() for each writer in its own thread along `order`; returns the trace dict."""
     import pysmi.writer.localfile as LF
     import pysmi.writer.pyfile as PF
-    d = real_os.path.join(scratch, 'dst')
+    # a directory of its own for every run: a writer thread left behind by an earlier (stalled) schedule cannot touch it
+    global _RUNS
+    _RUNS += 1
+    d = real_os.path.join(scratch, 'dst%d' % _RUNS)
     shutil.rmtree(d, ignore_errors=True)
     if dir0 or dest0 == 'old':
         real_os.makedirs(d)
